@@ -195,7 +195,7 @@ class Optical(Sensor):
             viz_cross_section,
             reflectivity,
             lambertianPhaseFunction(solar_phase_angle),
-            norm(boresight_eci),
+            norm(boresight_eci[:3]),
         )
         if rso_apparent_vismag > self.detectable_vismag:
             return False, Explanation.VIZ_MAG
